@@ -315,8 +315,8 @@ def main(chk):
             for f in range(nfiles):
                 pg = gen_p21.PopGen(lib.schema, rng, avoid=AVOID_POP, strs=['', 'a', "it''s", '#12'])
                 p = pg.population(n_extra=rng.randint(0, 4), with_complex=True)
-                if 'unfillable' in p.tags:
-                    p = None
+                if 'unfillable' in p.tags or not p.insts:
+                    p = None        # (an empty population has no ids to judge)
                     break
                 mode = 'from1' if (f == 0 and k % 2 == 0) or (k % 5 == 0) else rng.choice(MODES)
                 order = ORDERS[(k + f) % len(ORDERS)]
